@@ -60,7 +60,7 @@ class C02(Prop):
             'stack). Checked against a reference unifier: yields 0 or 1 times (a second next() stops), yields iff an '
             'mgu exists, at the yield the joint reification of (pool variables, t1, t2) equals the reference\'s resolved '
             'tuple up to renaming (most general, aliasing preserved, t1 and t2 identical), unify(t2, t1) from a fresh '
-            'copy of the state gives the same verdict and value, as does unify(t1, u2) with u2 = t2 built by another engine instance, closing instead of exhausting also restores, and '
+            'copy of the state gives the same verdict and value, as does unify(t1, u2) with u2 = t2 built by another engine instance, and as does the run in which all generators (stack and pair) are created first and started afterwards in order, closing instead of exhausting also restores, and '
             'afterwards every variable is as before. Cases that are STO (ISO 7.3.3: some order meets the occurs check) '
             'in the stack or the pair are discarded. Non-trivial = the pair is not syntactically identical and (both '
             'terms compound, or an earlier binding is dereferenced); distinct = SHA-1 of stack + pair.')
@@ -129,11 +129,12 @@ class C02(Prop):
         at_ref = canon(resolve(obs_terms, s2, None, 3000)) if s2 is not None else None
         detail = {'stack': ['%s = %s' % (show(a), show(b)) for a, b in stack], 'pair': '%s = %s' % (show(t1), show(t2)),
                   'reference': 'unifiable' if s2 is not None else 'not unifiable'}
-        for swap, ending, other in ((False, 'exhaust', False), (False, 'close', False), (True, 'exhaust', False), (False, 'exhaust', True)):
+        for swap, ending, other, deferred in ((False, 'exhaust', False, False), (False, 'close', False, False), (True, 'exhaust', False, False),
+                                              (False, 'exhaust', True, False), (False, 'exhaust', False, True)):
             if True:
-                r = self._run_impl(stack, kept, t1, t2, swap, ending, before_ref, at_ref, s2 is not None, other)
+                r = self._run_impl(stack, kept, t1, t2, swap, ending, before_ref, at_ref, s2 is not None, other, deferred)
                 if r is not None:
-                    detail['variant'] = ('unify(t2,t1)' if swap else 'unify(t1,t2)') + (' with t2 built by another engine' if other else '')
+                    detail['variant'] = ('unify(t2,t1)' if swap else 'unify(t1,t2)') + (' with t2 built by another engine' if other else '') + (' all generators created before any is started' if deferred else '')
                     detail['ending'] = ending
                     detail['problem'] = r[1]
                     return FAIL(r[0], detail)
@@ -154,15 +155,22 @@ class C02(Prop):
             return out
         return [t]
 
-    def _run_impl(self, stack, kept, t1, t2, swap, ending, before_ref, at_ref, unifiable, other_engine=False):
+    def _run_impl(self, stack, kept, t1, t2, swap, ending, before_ref, at_ref, unifiable, other_engine=False, deferred=False):
         from yldprolog.engine import unify
         yp = impl.YP()
         vmap = {}
         pool = [E(yp, v, vmap) for v in POOL]
         gens = []
         try:
-            for (a, b), k in zip(stack, kept):
-                g = iter(unify(E(yp, a, vmap), E(yp, b, vmap)))
+            created = None
+            if deferred:
+                # every unification - the stack's and the final one - is CREATED first and STARTED afterwards, in order
+                # (a list of goals built up front and run as nested loops): the outcome must be the same
+                created = [iter(unify(E(yp, a, vmap), E(yp, b, vmap))) for (a, b) in stack]
+                pre_e1, pre_e2 = E(yp, t1, vmap), E(yp, t2, vmap)
+                pre_final = iter(unify(pre_e1, pre_e2))
+            for i, ((a, b), k) in enumerate(zip(stack, kept)):
+                g = created[i] if deferred else iter(unify(E(yp, a, vmap), E(yp, b, vmap)))
                 try:
                     next(g)
                     ok = True
@@ -186,7 +194,7 @@ class C02(Prop):
             o = observe()
             if o != before_ref:
                 return ('state-before-differs', 'before: %s expected %s' % (show(o), show(before_ref)))
-            g = iter(unify(e2, e1) if swap else unify(e1, e2))
+            g = pre_final if deferred else iter(unify(e2, e1) if swap else unify(e1, e2))
             try:
                 next(g)
                 yielded = True
